@@ -472,6 +472,10 @@ def make_class(node, element, tag, context):
         evaluate(element, context=context) if element else Element(name=None)
     )
     tag = value_evaluate(tag)
+    if not isinstance(element, Element):
+        raise node.location.syntax_error(
+            "A category can only be given to a variable or a function name"
+        )
     return element.clone(category=tag)
 
 
